@@ -231,7 +231,14 @@ def dependent_generator(repo):
                 return True
         return False
 
-    return _one([f for f in repo.all_funcs() if f.parent is None and f.cls is None and ok(f)], "dependent-dispatch generator (templates mention FALLTHROUGH)")
+    cands = [f for f in repo.all_funcs() if f.parent is None and f.cls is None and ok(f)]
+    if len(cands) > 1:
+        # a helper the generator delegates emission to is not the generator: keep the callers
+        called = {c.func.id for f in cands for c in ast.walk(f.node) if isinstance(c, ast.Call) and isinstance(c.func, ast.Name)}
+        roots = [f for f in cands if f.name not in called]
+        if roots:
+            cands = roots
+    return _one(cands, "dependent-dispatch generator (templates mention FALLTHROUGH)")
 
 
 @_memo
